@@ -123,6 +123,15 @@ class UserError(Exception):
     """Ordinary exception raised by generated service code."""
 
 
+def service_side_error():
+    """A service error class derived from the framework's base exception (the service wraps the framework in its storage layer)."""
+    global ServiceSideError
+    if 'ServiceSideError' not in globals():
+        from playback.exceptions import TapeRecorderException
+        ServiceSideError = type('ServiceSideError', (TapeRecorderException,), {'__module__': __name__})
+    return ServiceSideError
+
+
 class UserError2(Exception):
     pass
 
